@@ -212,7 +212,7 @@ func c10World(rc *kernel.RunCtx) {
 	for i := 0; i < npoints && !rc.Failed(); i++ {
 		o := renderOnce(u, spec, kn, Fault{}, i, -1, false, nil, nil)
 		if o.env.Fired == "" {
-			rc.Fail("C10/harness", "fault point %d of %d not reached in %s", i, npoints, spec)
+			rc.Fail("C10/later-render-diverged", "the fault-free probe of %s reached %d fault points, but a later render on the same pools ended before point %d (err=%v)", spec, npoints, i, o.err)
 			break
 		}
 		fired++
@@ -281,7 +281,7 @@ func c10World(rc *kernel.RunCtx) {
 			}
 			o := renderOnce(u, spec, kn, Fault{Kind: kind, At: at}, -1, -1, false, nil, nil)
 			if !o.w.fired {
-				rc.Fail("C10/harness", "writer fault %s@%d did not fire (doc %d bytes)", kind, at, len(D))
+				rc.Fail("C10/later-render-diverged", "the fault-free document of %s has %d bytes, but a later render on the same pools never wrote byte %d (err=%v, got %d bytes)", spec, len(D), at, o.err, len(o.got))
 				break
 			}
 			fired++
